@@ -340,6 +340,52 @@ theorem cancel_only_own_flights (mx base : Int) (evs : List Ev) (k c : Bytes) (e
   obtain ⟨e0, he0, hk0, hc0, _, hd, _⟩ := failed_fetch_releases_all_waiters mx base evs k c err rest hq t
   exact ⟨hmem, h'.flight_of e hmem hp, e0, he0, hk0, hc0, hd⟩
 
+open Rv.CachePipe in
+/-- **A caller whose context is already done leaves no dead flight.** A DoCache call that finds its context done
+    (`startDone`: the request is never written, the caller cancels the flight it has just created) changes neither
+    the fetches on the wire nor — through `pending_iff_in_flight`, which covers this event — the one-to-one
+    correspondence with the pending entries: afterwards the command is pending only if a request for it really is on
+    the wire, so no later read can wait on an entry that nothing will ever resolve. -/
+theorem ctx_done_at_entry_leaves_no_dead_flight (mx base : Int) (evs : List Ev) (k c : Bytes) (ttl now : Int) (err : Nat) :
+    let st := CachePipe.run (CachePipe.init mx base) evs
+    let st' := CachePipe.step st (.startDone k c ttl now err)
+    inFlight st' = inFlight st ∧
+    (∀ e ∈ st'.store.list, e.pend = true → (e.key, e.cmd) ∈ inFlight st') ∧
+    ((k, c) ∉ inFlight st → ∀ ttl' now', lookupRes st' k c ttl' now' ≠ .wait 0 ∧
+        ∀ id, lookupRes st' k c ttl' now' ≠ .wait id) := by
+  intro st st'
+  have h := sf_run (pinv_init mx base) (sf_init mx base) evs
+  have hp := pinv_run (pinv_init mx base) evs
+  have h' : SF st' := sf_step hp h _
+  have hp' : PInv st' := pinv_step hp _
+  have hin : inFlight st' = inFlight st := by
+    show inFlight (CachePipe.step st (.startDone k c ttl now err)) = inFlight st
+    simp only [CachePipe.step]
+    split
+    · rfl
+    · split <;> rfl
+  refine ⟨hin, h'.flight_of, ?_⟩
+  intro hnot ttl' now'
+  have key : ∀ id, lookupRes st' k c ttl' now' ≠ .wait id := by
+    intro id hw
+    have o := flight_cases st'.store k c ttl' now'
+    have hw : (flight st'.store k c ttl' now').2 = .wait id := hw
+    cases o with
+    | closed hc hs hr => rw [hr] at hw; cases hw
+    | expired e hc hf hv hr hl hsz hn fr => rw [hr] at hw; cases hw
+    | absent hc hf hr hl hsz hn fr => rw [hr] at hw; cases hw
+    | found e hc hf hv hr hl hsz hn fr =>
+      have hf' := find?_some hf
+      rw [hr] at hw
+      unfold resOf at hw
+      split at hw
+      · rename_i hpe
+        have := h'.flight_of e hf'.1 hpe
+        rw [hf'.2.1, hf'.2.2, hin] at this
+        exact hnot this
+      · cases hw
+  exact ⟨key 0, key⟩
+
 /-! ### non-vacuity -/
 
 example : (flight (Lru.init 1000 336) [1] [2] 5 0).2 = .send ∧
